@@ -270,6 +270,44 @@ def audit(prop):
     return res
 
 
+def coqchk(prop):
+    """thorough tier: re-check the property's compiled closure with the independent checker and list
+    the axioms it finds. Returns (ok, axioms, message)."""
+    rc, out, err = run(['timeout', '1500', 'coqchk', '-o', '-silent', '-Q', '.', 'TS', f'TS.Props.{prop}'], cwd=COQ, timeout=1600)
+    text = out + err
+    axioms = []
+    if 'Axioms: <none>' not in text:
+        m = re.search(r'Axioms:(.*?)(?:\n\s*\n|\Z)', text, re.S)
+        if m:
+            axioms = [l.strip() for l in m.group(1).splitlines() if l.strip() and l.strip() != '<none>']
+    return rc == 0, axioms, text[-800:]
+
+
+def coq_lit_str(s):
+    return '[' + '; '.join(str(ord(c)) for c in s) + ']%N'
+
+
+def coq_check_equalities(imports, equalities, shard=200):
+    """thorough tier: cross-check extraction. Each equality is a Coq proposition `lhs = rhs` whose rhs is
+    what the EXTRACTED model answered; it must hold by vm_compute inside Coq. Returns list of failures."""
+    if not equalities:
+        return []
+    d = tmpdir()
+    jobs = []
+    for k in range(0, len(equalities), shard):
+        f = d / f'xc{k}.v'
+        body = [imports] + [f'Goal {e}.\nProof. vm_compute. reflexivity. Qed.' for e in equalities[k:k + shard]]
+        f.write_text('\n'.join(body) + '\n')
+        jobs.append(f)
+
+    def one(f):
+        rc, out, err = run(['timeout', '900', 'coqc', '-Q', str(COQ), 'TS', '-w', '-all', str(f)], cwd=d, timeout=1000)
+        return (f.name, rc, (out + err)[-600:])
+    with concurrent.futures.ThreadPoolExecutor(max_workers=NPROC) as ex:
+        res = list(ex.map(one, jobs))
+    return [r for r in res if r[1] != 0]
+
+
 # ------------------------------------------------------------------ parallel runners
 def _chunks(lines, n):
     k = max(1, (len(lines) + n - 1) // n)
@@ -407,6 +445,17 @@ class Check:
             self.build_failures.append(('model extraction/driver build', msg))
             raise SystemExit(self.finish())
         self.audit = audit(self.prop) if not self.build_failures else {'obligations': 1, 'discharged': 0, 'axioms': [], 'failures': ['coq build failed'], 'theorems': []}
+        if self.tier == 'thorough' and not self.build_failures:
+            ok, axioms, msg = coqchk(self.prop)
+            self.counters['coqchk_ok'] = int(ok)
+            self.notes.append('coqchk -o axioms: ' + (', '.join(axioms) if axioms else '<none>'))
+            bad = [a for a in axioms if not any(a.endswith(x.split('.')[-1]) or x in a for x in AXIOM_ALLOW)]
+            if not ok:
+                self.audit['failures'].append('coqchk rejected the compiled development: ' + msg)
+                self.audit['discharged'] = 0
+            elif bad:
+                self.audit['failures'].append('coqchk reports axioms outside the allow-list: ' + ', '.join(bad))
+                self.audit['discharged'] = 0
         self.harness_ok = self.cli_ok = True
         if need_harness:
             ok, msg = build_harness()
